@@ -13,21 +13,22 @@ def validate(ctx, res, n_quick=1500, n_thorough=40000):
         ps = []
         for _ in range(rng.randrange(1, 4)):
             comps = ["".join(rng.choice(ALPHA) for _ in range(rng.randrange(0, 5))) for _ in range(rng.randrange(1, 4))]
-            if rng.random() < .8:
+            if rng.random() < .7:
                 comps[0] = rng.choice(["K", "A", "", "NOTES"])
             ps.append(comps)
         docs.append(ps)
-    safe = ctx.lean.eval_sharded([{"op": "msd.safe", "params": d} for d in docs])
+    leads = [rng.random() < .3 for _ in docs]          # a line break in front of the first parameter
+    safe = ctx.lean.eval_sharded([{"op": "msd.safe", "params": d, "lead_nl": l} for d, l in zip(docs, leads)])
     unsound, strict_gap, n_safe = [], 0, 0
-    for d, s in zip(docs, safe):
-        text = "".join(str(MSDParameter(tuple(c))) + "\n" for c in d)
+    for d, s, lead in zip(docs, safe, leads):
+        text = ("\n" if lead else "") + "".join(str(MSDParameter(tuple(c))) + "\n" for c in d)
         try:
             back = [list(p.components) for p in parse_msd(string=text)]
             rt = back == d
         except Exception:
             rt = False
-        if s != objs.scan_safe(d):
-            res.tie_break("msd.safe (Lean safeDoc vs its Python transcription)", {"params": d}, objs.scan_safe(d), s)
+        if s != objs.scan_safe(d, lead_nl=lead):
+            res.tie_break("msd.safe (Lean safeDoc vs its Python transcription)", {"params": d, "lead_nl": lead}, objs.scan_safe(d, lead_nl=lead), s)
         if s:
             n_safe += 1
             if not rt: unsound.append(d)
